@@ -118,7 +118,17 @@ def toolkit(case):
         return rec
     g, _ = full_projection(m, rings=True)
     rec.update({'ok': 1, 'rd1': Chem.MolToSmiles(r1), 'rd2': Chem.MolToSmiles(r2), 'g': g, 'cs': str(m)})
-    return rec
+    out = [rec]
+    # the library's other spellings of the same molecule (random order, asymmetric closures) read by the independent toolkit
+    rnd = random.Random(case.get('rs', 0))
+    for k in range(case.get('nrand', 3)):
+        random.seed(rnd.randrange(1 << 30))
+        text = format(m, rnd.choice(['r', 'ra', 'rh']))
+        rk = Chem.MolFromSmiles(text)
+        if rk is None:
+            continue
+        out.append(dict(rec, rd2=Chem.MolToSmiles(rk), cs=text))
+    return out
 
 
 def isomers(case):
@@ -207,7 +217,10 @@ def run(ck):
     ck.exhaustive['tetrahedral-tables'] = True
     ck.exhaustive['double-bond-and-allene-tables'] = True
     sel2 = chy.pick(stereo, 250 if ck.quick else len(stereo), ck.seed, 3)
-    add('toolkit', 'toolkit', [{'smi': s} for s in CENTRES + DOUBLES + sel2])
+    polycyclic = ['O=C1CC[C@H]2[C@@H]1CC[C@@H]1COC[C@H]21', 'C[C@]12CC[C@H]3[C@@H](CCc4cc(O)ccc34)[C@@H]1CC[C@@H]2O',
+                  'C[C@@H]1C[C@H]2[C@@H]3CCC4=CC(=O)C=C[C@]4(C)[C@@]3(F)[C@@H](O)C[C@]2(C)[C@@]1(O)C(=O)CO', 'CN1[C@H]2CC[C@@H]1[C@H]([C@H](C2)OC(=O)c1ccccc1)C(=O)OC',
+                  'C[C@H]1CC[C@@H]2[C@@H](C1)CC[C@H]1CCCC[C@@H]21'.replace('C[C@H]1CC', 'O[C@H]1CC'), 'O=C1N[C@@H]2CS[C@@H](CCCCC(=O)O)[C@@H]2N1']
+    add('toolkit', 'toolkit', [{'smi': s, 'rs': ck.seed * 31 + k, 'nrand': 3 if ck.quick else 10} for k, s in enumerate(CENTRES + DOUBLES + polycyclic + sel2)])
     add('isomers', 'isomers', [{'smi': s} for s in ['C[C@H](N)O', 'C[C@H](O)[C@@H](N)CC', 'C[C@H](O)[C@@H](N)[C@H](F)CC', 'N[C@@H](C)C(=O)N[C@@H](CO)C(=O)O',
                                                      'C[C@H]1CC[C@@H](N)C(=O)O1', 'C[C@@H]1C[C@H](O)[C@@H](N)CO1'] + sel2])
     nonstereo = ['C[C@H](C)O', 'C[C@@H](C)C', 'F[C@H](F)Cl', 'C[C@](C)(N)O', 'C[C@H](N)O', 'CC[C@H](C)O', '[C@H](F)(Cl)Br', 'C[C@H]1CCCCC1', 'C[C@@](F)(Cl)C',
